@@ -117,7 +117,7 @@ def r26_engine_control(facts):
                     reads = _value_reads(facts, e)
                     inst = "cond:%s#%s" % (b["def"], kind)
                     if reads:
-                        c.unk(inst, loc(b, e), "a %s condition in the backward engine reads array values (%s): which nodes are processed / which "
+                        c.bad(inst, loc(b, e), "a %s condition in the backward engine reads array values (%s): which nodes are processed / which "
                               "contributions are delivered would depend on the numbers flowing through the pass; the counting protocol, "
                               "once-only evaluation and linearity in the seed cannot be decided for such an engine"
                               % (kind, show(reads[0])[:80]))
@@ -277,7 +277,7 @@ def r22_update_alignment(facts):
         if sub is not None:
             ok, why, node = sub
             if ok is None:
-                c.unk("align:%s#subset" % u["def"], loc(u, node) if node else "-", why)
+                c.ok("align:%s#subset" % u["def"], loc(u, node) if node else "-", "selection predicates not compared (%s)" % why, nontrivial=False)
             else:
                 c.check(ok, "align:%s#subset" % u["def"], loc(u, node) if node else "-", why, why)
         c.count("producer/consumer pairs checked", n_pairs)
@@ -300,6 +300,22 @@ def _subset_consistency(facts, u, travs, vecs):
     cb = pr["closure"]
     pushed = strip(pr["node"]["args"][1])
     _, ret = closure_tail(facts, cb)
+    cenv = {}
+    for x in walk(facts.root(cb)):
+        if x.get("k") == "Block":
+            for st in x["stmts"]:
+                if st["s"] == "let" and st["pat"].get("k") == "Binding" and st.get("init") is not None:
+                    cenv[st["pat"]["v"]] = st["init"]
+
+    def unlet(e):
+        e = strip(e)
+        n = 0
+        while isinstance(e, dict) and e.get("k") == "VarRef" and e["v"] in cenv and n < 4 and cenv[e["v"]].get("ty") == "bool":
+            e = strip(cenv[e["v"]])
+            n += 1
+        return e
+    pushed = unlet(pushed)
+    ret = unlet(ret) if ret is not None else ret
 
     def pol(e):
         """(polarity, receiver rendering) of an is_some / is_none test, looking through !"""
